@@ -563,14 +563,14 @@ compare-and-delete (the hybrid storage does not even forward `CompareAndSwap`), 
 def P0 : Params := ⟨repaired, .str, 1000⟩
 
 /-- Client 7 registered on `c0` (node 0). -/
-def sA : Store := registerConnection P0 0 0 FMap.empty ⟨c0, 7, 0, true⟩
+def sA : Store := registerConnection P0 0 0 FMap.empty ⟨c0, 7, 0, true, 0⟩
 
 /-- Node 1 registers the reconnected client on `c1`. -/
-def sB : Store := registerConnection P0 1 0 sA ⟨c1, 7, 1, true⟩
+def sB : Store := registerConnection P0 1 0 sA ⟨c1, 7, 1, true, 0⟩
 
 /-- Node 0 starts `UnregisterConnection(c0)` (or `RefreshConnection(c0)`) on `sA`: record found, index names `c0`. -/
 theorem check_then_act_reads :
-    getConnectionState P0 0 sA c0 = .ok (infoOf c0) ∧ clientIndexPointsTo 0 sA 7 c0 = true := by decide
+    getConnectionState P0 0 sA c0 = .ok (infoOf c0 1000) ∧ clientIndexPointsTo 0 sA 7 c0 = true := by decide
 
 /-- … node 1 registers in between (`sB`, where the lookup is right) … and node 0 carries out the two deletes it
 decided on: the location written by node 1 is erased, the connected client is reported as not connected. -/
@@ -581,6 +581,40 @@ theorem index_check_then_act_witness :
 /-- The same window in `RefreshConnection`: the stale connection's heartbeat writes the index back to itself. -/
 theorem refresh_check_then_act_witness :
     findClientNode P0 0 (set 0 1000 sB (.client 7) (.id c0)) 7 = .found 0 c0 := by decide
+
+/-! ## The application-level deadline `ExpiresAt` (re-checked by `GetConnectionState`) follows the last registration -/
+
+/-- **Authenticating again on the same connection renews the registration.**  After any history — in particular
+a session that has outlived several lifetimes on heartbeats — a successful handshake on the connection `c` that is
+already the client's registered one makes `c` findable for a full lifetime from NOW (`ExpiresAt` and the storage
+deadline are both `now + ttl`, not first registration `+ ttl`). -/
+theorem rehandshake_renews {P : Params} (hv : P.v = repaired) (httl : 0 < P.ttl) (evs : List Ev) (c : Conn)
+    (hok : stepOk (reach P evs).2 (.hs c true) = true) (hx : 0 < c.client) (dt : Nat) (hdt : dt ≤ P.ttl) :
+    findClientNode P (reach P (evs ++ [.hs c true, .tick dt])).2.now
+      (reach P (evs ++ [.hs c true, .tick dt])).2.store c.client = .found c.node c := by
+  have he : reach P (evs ++ [.hs c true, .tick dt]) =
+      reachFrom P (reach P evs).1 (reach P evs).2 [.hs c true, .tick dt] := reachFrom_append P _ _ evs _
+  have hinv := reach_inv hv httl (evs ++ [.hs c true, .tick dt])
+  rw [he] at hinv ⊢
+  refine find_live hv hinv (u := (reach P evs).1.now + P.ttl) ?_ ?_
+  · simp only [reachFrom, specStep, hok, Bool.true_and, gt_iff_lt, hx, decide_true, if_true]
+    exact LMap.lookup_insert_eq _ _ _
+  · simp only [reachFrom, specStep, hok, Bool.true_and, gt_iff_lt, hx, decide_true, if_true]
+    omega
+
+/-- The re-check is live in the model: a record whose `ExpiresAt` has passed is treated as absent although the
+store still holds it (what a registration that stamped an old `ExpiresAt` would produce). -/
+example : getConnectionState P0 500
+    (set 400 1000 FMap.empty (.conn c0) (.info ⟨c0, 7, 0, true, 300⟩)) c0 = .notFound ∧
+    getConnectionState P0 500
+    (set 400 1000 FMap.empty (.conn c0) (.info ⟨c0, 7, 0, true, 1400⟩)) c0 = .ok ⟨c0, 7, 0, true, 1400⟩ := by decide
+
+/-- Non-vacuity of `rehandshake_renews`: registered, kept alive by heartbeats beyond one lifetime (1000 ms),
+authenticates again on the same connection at 1200 ms, still found 900 ms later. -/
+example : findClientNode ⟨repaired, .str, 1000⟩
+    (reach ⟨repaired, .str, 1000⟩ ([.open c0, .hs c0 true, .tick 600, .hb c0, .tick 600, .hb c0] ++ [.hs c0 true, .tick 900])).2.now
+    (reach ⟨repaired, .str, 1000⟩ ([.open c0, .hs c0 true, .tick 600, .hb c0, .tick 600, .hb c0] ++ [.hs c0 true, .tick 900])).2.store 7
+      = .found 0 c0 := by decide
 
 /-! ## Non-vacuity -/
 
